@@ -97,8 +97,8 @@ PROPS = {
             "level_text": "Proved: per-column scorer outputs are functions of (column j, cut) only (value posts of C01/C06), detectors consume only the "
                           "aggregated row sums (AGG in the kernel contracts). The symmetry relations themselves (permutation/shift/scale/reversal) are "
                           "checked by the bounded driver (n<=8 scorers, n<=30 detectors); no relational lemma is machine-proved yet.",
-            "level_note": "symmetry lemmas not yet machine-checked: this property is decided by the bounded tier; proof obligations listed are the "
-                          "supporting value posts"},
+            "level_note": "symmetry lemmas not machine-checked: the relations are decided by the bounded tier; the proof obligations listed in evidence are "
+                          "the supporting value posts of the scorers (tagged C12 in specs/zz_tags.py)"},
     "C13": {"category": "proof", "driver": "C13", "claimed": True,
             "technique": "contract-based deductive verification (own AST->VC generator, z3/cvc5) of evaluate/_check_cuts/check_cuts_array/kernels "
                          "+ exhaustive bounded run-time check of the box [-2,n+2]^k",
